@@ -7,7 +7,7 @@ use oracle::report::Ctx;
 pub fn dispatch(ctx: &Ctx) -> i32 {
     match ctx.property.as_str() {
         "C01" => e1::check_file_prop(ctx, e1::FileProp::C01),
-        "C15" => e1::check_file_prop(ctx, e1::FileProp::C15),
+        "C15" => e1::check_c15(ctx),
         "C08" => e1::check_c08(ctx),
         "C02" => combine(ctx, e1::collect_file_prop(ctx, e1::FileProp::C02), frag::collect(ctx, "C02")),
         "C03" => timing::check_c03(ctx),
